@@ -78,7 +78,7 @@ Section Loop.
     destruct (len acc <? size) eqn:Hlt.
     2:{ (* the buffer is full *)
         apply N.ltb_ge in Hlt. unfold loop_post. repeat split; auto; try lia.
-        apply res_of_pos. lia. }
+        symmetry. apply res_of_pos. lia. }
     apply N.ltb_lt in Hlt. specialize (Hfuel Hlt).
     (* the shared "copy from the cursor and go round again" step *)
     assert (Htake : forall c sock',
@@ -114,16 +114,18 @@ Section Loop.
       + rewrite <- E, <- Hp2, <- !app_assoc. reflexivity.
       + intros _. destruct (N.eq_dec (len chunk) 0) as [Hz|Hz].
         * (* nothing left in that message *)
-          apply len_nil_inv in Hz. subst chunk. rewrite app_nil_r in *.
+          apply len_nil_inv in Hz. subst chunk.
           destruct (T4 eq_refl) as [Hr|Hr]; [lia|].
-          assert (Hw2 : pend w2 = []).
-          { unfold pend, w2. cbn [w_cur]. apply N.ltb_lt in Hlt. rewrite Hlt. reflexivity. }
+          assert (Hl2 : (len (acc ++ []) <? size) = true) by (rewrite app_nil_r; apply N.ltb_lt; exact Hlt).
+          assert (Hw2 : pend w2 = []) by (unfold pend, w2; cbn [w_cur]; rewrite Hl2; reflexivity).
+          cbn [len length] in B7. rewrite N.add_0_r in B7.
           destruct (B7 Hlt) as [X|[X|(X1 & X2 & X3 & X4 & X5)]]; auto.
-          right. right. unfold pend. rewrite Hcur. auto.
+          right. right. unfold pend. rewrite Hcur. rewrite app_nil_r in X5. auto.
         * left. lia.
     - rewrite Hfin. destruct sock as [|r s'].
       + (* nothing available *)
-        unfold loop_post. cbn [pend]. unfold pend. rewrite Hcur. repeat split; auto; try lia.
+        unfold loop_post. unfold pend. rewrite Hcur. cbn [w_cur].
+        repeat split; auto; try lia; try reflexivity. intros _. right. right. repeat split; auto.
       + cbn [no_err forallb] in Hne. apply andb_prop in Hne. destruct Hne as [Hr Hne].
         destruct r as [m| |]; [| |discriminate].
         * destruct (cursor_new m) as [c|] eqn:Hm.
@@ -155,7 +157,7 @@ Section Loop.
              repeat split; auto; try lia.
         * (* the transport has nothing right now *)
           unfold loop_post. unfold pend. rewrite Hcur. rewrite stream_of_cons. cbn [payload app length].
-          repeat split; auto; try lia.
+          repeat split; auto; try lia; try reflexivity; try (intros _; right; left; lia).
   Qed.
 
   (* one Read::read *)
@@ -243,5 +245,5 @@ Lemma drive_batch_ok o batch results :
 Proof.
   intros Hne Hk. destruct results as [|t rest]; [congruence|].
   destruct t; [|exfalso; apply Hk; left; reflexivity].
-  cbn. rewrite <- app_assoc. reflexivity.
+  cbn. reflexivity.
 Qed.
